@@ -56,13 +56,6 @@ impl Op {
             Op::ReadPages => "read_pages",
         }
     }
-    pub fn frames(&self) -> usize {
-        match self {
-            Op::Write { .. } | Op::Undo { .. } => 1,
-            Op::Batch { frames, .. } => frames.len(),
-            _ => 0,
-        }
-    }
 }
 
 pub fn undo_file_id(table: u32, txn: u32) -> u64 {
@@ -220,6 +213,10 @@ impl Model {
             }
         }
         out
+    }
+
+    pub fn is_sync_full(&self) -> bool {
+        self.sync_full
     }
 
     /// Model-level facts about the history that matter for what recovery has to cope with.
